@@ -100,6 +100,11 @@ fn finish<M: Monitor>(m: &M, a: &Args, rep: Report, wall: f64, floor_applies: bo
     }
     let floor = if floor_applies { (m.floor(a.tier) as f64 * a.scale * a.floor_scale).floor() as u64 } else { 0 };
     let mut inconclusive: Vec<String> = vec![];
+    for (k, n) in &rep.inconclusive {
+        if k.starts_with("harness panic") || k.starts_with("a worker thread died") {
+            inconclusive.push(format!("{k} (x{n})"));
+        }
+    }
     if (rep.nontrivial.len() as u64) < floor {
         inconclusive.push(format!(
             "only {} distinct non-trivial cases observed, floor is {}",
